@@ -68,6 +68,10 @@ CHECKS = {
             "DESIGN.md §3 C16",
             "Real carousel sessions (scheme x 1..3 objects incl. an empty one x in-band / FDT-only OTI+CENC x cenc x delay / interval carousel x publish mode x single- and multi-packet FDT) are recorded over four cycles; for every packet boundary of the first cycle (mid-FDT, mid-block, between objects, between cycles) the stream from there to the end of the second further full cycle is pushed into a fresh receiver, which must complete every object byte-exactly.",
             "Trusted: the definition of a cycle (everything emitted at one poll); no loss after the join."),
+    "C18": ("model_checking", "exhaustive interleavings of recorded sessions + explicit-state BFS of the TSI filter against a counter reference + deviation-bounded exploration of clock reads for listener events, all on the real MultiReceiver", "statex",
+            "DESIGN.md §3 C18",
+            "Isolation: every interleaving of 2-3 recorded sessions (same TSI on two endpoints, two TSIs on one endpoint, same destination with and without source) is pushed into one MultiReceiver and each session's writer/FDT callbacks (with their endpoint and TSI) must equal the session run alone. Filter: BFS over all sequences of the 24 add/remove listen operations (2 endpoints x source/no-source x 2 TSIs, per-TSI and all-TSI) to depth 4 (quick) / 5 (thorough); after every operation 8 probe packets decide processed/dropped against reference counters. Listener: every history over {data s, close-session s, tick+cleanup} up to length 5/6 for 2 sessions, with a 6 s jump of the virtual Instant injected before every single clock read (every pair in thorough); the event word of each session must be (open close)* once the receiver is dropped, a data packet always leaves its session open, a close-session packet always leaves it closed.",
+            "Trusted: the virtual Instant hook (H2) and its read counter; the probe = a single-packet FDT instance observed through fdt_received."),
 }
 
 NOT_YET = {}
